@@ -557,26 +557,50 @@ theorem plan_listParts (b k uid : Bytes) :
     L_children_parts hr fun n h => ⟨rfl, h⟩
   touch_list <;> solve_by_elim
 
-theorem completePartsPlan_allowed {Q : Touch → Prop} (u tmp p : Bytes) (hrm : Q (rm tmp))
-    (hfin : ∀ t ∈ [⟨.create, .dirChain (parentPath p)⟩, cr p, wr p, rd p], Q t) (ps : List Int) :
+theorem completeCheck_allowed {Q : Touch → Prop} (u : Bytes) (ps : List Int) :
     (∀ n ∈ ps, ∀ pp, uploadPartPath e u n = .ok pp → ∀ a, Q ⟨a, .path pp⟩) →
-    ∀ (cnt : Int) (acc : List Touch), (∀ t ∈ acc, Q t) →
-      ∀ t ∈ (completePartsPlan e u tmp p ps cnt acc).touches, Q t := by
+    ∀ (cnt : Int) (acc : List Touch) (pps : List Bytes), (∀ t ∈ acc, Q t) → (∀ pp ∈ pps, ∀ a, Q ⟨a, .path pp⟩) →
+      (∀ pl, completeCheck e u ps cnt acc pps = .error pl → ∀ t ∈ pl.touches, Q t) ∧
+      (∀ t2 pps', completeCheck e u ps cnt acc pps = .ok (t2, pps') →
+        (∀ t ∈ t2, Q t) ∧ ∀ pp ∈ pps', ∀ a, Q ⟨a, .path pp⟩) := by
   induction ps with
   | nil =>
-    intro _ cnt acc ha
-    simp only [completePartsPlan]
-    exact forall_append ha (forall_cons hrm hfin)
+    intro _ cnt acc pps ha hpps
+    refine ⟨fun pl h => ?_, fun t2 pps' h => ?_⟩
+    · simp [completeCheck] at h
+    · simp only [completeCheck, Except.ok.injEq, Prod.mk.injEq] at h
+      obtain ⟨rfl, rfl⟩ := h
+      exact ⟨ha, hpps⟩
   | cons n rest ih =>
-    intro hp cnt acc ha
-    simp only [completePartsPlan]
-    have hacc : ∀ t ∈ acc ++ [rm tmp], Q t := forall_append ha (forall_cons hrm forall_nil)
-    split
-    · exact hacc
-    · refine forall_withPath hacc fun pp hpp => ?_
-      refine ih (fun m hm => hp m (List.mem_cons_of_mem _ hm)) _ _ (forall_append ha ?_)
-      have := hp n (by simp) pp hpp
-      exact forall_cons (this _) (forall_cons (this _) forall_nil)
+    intro hp cnt acc pps ha hpps
+    by_cases hn : n ≠ cnt + 1
+    · simp only [completeCheck]
+      rw [if_pos hn]
+      refine ⟨fun pl h => ?_, fun _ _ h => by cases h⟩
+      cases h
+      exact ha
+    · simp only [completeCheck]
+      rw [if_neg hn]
+      cases hpp : uploadPartPath e u n with
+      | error x =>
+        refine ⟨fun pl h => ?_, fun _ _ h => by cases h⟩
+        cases h
+        exact ha
+      | ok pp =>
+        have hq := hp n (by simp) pp hpp
+        refine ih (fun m hm => hp m (List.mem_cons_of_mem _ hm)) _ _ _
+          (forall_append ha (forall_cons (hq _) forall_nil)) ?_
+        intro pp' hpp' a
+        rcases List.mem_append.mp hpp' with h | h
+        · exact hpps pp' h a
+        · simp at h; subst h; exact hq a
+
+theorem forall_map_path {Q : Touch → Prop} {pps : List Bytes} (f : Bytes → Touch) (a : Acc) (hf : ∀ p, f p = ⟨a, .path p⟩)
+    (h : ∀ pp ∈ pps, ∀ a, Q ⟨a, .path pp⟩) : ∀ t ∈ pps.map f, Q t := by
+  intro t ht
+  obtain ⟨pp, hpp, rfl⟩ := List.mem_map.mp ht
+  rw [hf]
+  exact h pp hpp a
 
 theorem plan_completeMultipartUpload (b k uid : Bytes) (parts : Option (List Int)) (c : Nat) :
     ∀ t ∈ (plan e enc (.completeMultipartUpload b k uid parts c)).touches,
@@ -594,38 +618,47 @@ theorem plan_completeMultipartUpload (b k uid : Bytes) (parts : Option (List Int
         fun _ => L_name hr (good_uploadInfoName hu) ⟨u, hpu, .inl rfl⟩ hinfo
       have hp1 : ∀ t ∈ ([] : List Touch) ++ [rd info], P e enc (.completeMultipartUpload b k uid (some ps) c) t := by
         touch_list <;> solve_by_elim
-      refine forall_withPath hp1 fun info' hinfo' => ?_
-      have h1' : ∀ acc, P e enc (.completeMultipartUpload b k uid (some ps) c) ⟨acc, .path info'⟩ :=
-        fun _ => L_name hr (good_uploadInfoName hu) ⟨u, hpu, .inl rfl⟩ hinfo'
-      have hp2 : ∀ t ∈ ([] : List Touch) ++ [rd info] ++ [rm info'],
-          P e enc (.completeMultipartUpload b k uid (some ps) c) t :=
-        forall_append hp1 (by touch_list <;> solve_by_elim)
-      refine forall_withPath hp2 fun um hum => ?_
-      have h2 : ∀ acc, P e enc (.completeMultipartUpload b k uid (some ps) c) ⟨acc, .path um⟩ :=
-        fun _ => L_name hr (good_metadataName he b k (by intro x hx; cases hx; exact hu))
-          ⟨u, hpu, .inr (.inl rfl)⟩ hum
-      have hp3 : ∀ t ∈ ([] : List Touch) ++ [rd info] ++ [rm info'] ++ [rd um],
-          P e enc (.completeMultipartUpload b k uid (some ps) c) t :=
-        forall_append hp2 (by touch_list <;> solve_by_elim)
-      refine forall_withPath hp3 fun m hm => ?_
-      have h3 : ∀ acc, P e enc (.completeMultipartUpload b k uid (some ps) c) ⟨acc, .path m⟩ :=
-        fun _ => L_name hr (good_metadataName he b k (by simp)) ⟨u, hpu, .inr (.inr (.inl rfl))⟩ hm
-      have hp4 : ∀ t ∈ ([] : List Touch) ++ [rd info] ++ [rm info'] ++ [rd um] ++ [cr m, wr m, rm um],
-          P e enc (.completeMultipartUpload b k uid (some ps) c) t :=
-        forall_append hp3 (by touch_list <;> solve_by_elim)
-      refine forall_withPath hp4 fun p hp => ?_
-      refine forall_withPath hp4 fun tmp htmp => ?_
-      have h4 : ∀ acc, P e enc (.completeMultipartUpload b k uid (some ps) c) ⟨acc, .path tmp⟩ :=
-        fun _ => L_name hr (good_tmpName c) ⟨u, hpu, .inr (.inr (.inr (.inl rfl)))⟩ htmp
+      refine forall_withPath hp1 fun p hp => ?_
       have h5 : ∀ acc, P e enc (.completeMultipartUpload b k uid (some ps) c) ⟨acc, .path p⟩ :=
         fun _ => L_obj hr (bw (by simp [writeBuckets])) hp
       have h6 : P e enc (.completeMultipartUpload b k uid (some ps) c) ⟨.create, .dirChain (parentPath p)⟩ :=
         L_objChainParent hr (bw (by simp [writeBuckets])) hp
-      refine completePartsPlan_allowed e enc hr he u tmp p (h4 _) (by touch_list <;> solve_by_elim) ps ?_ 0 _
-        (forall_append hp4 (by touch_list <;> solve_by_elim))
-      intro n hn pp hpp a
-      exact L_name hr (good_uploadPartName hu n)
-        ⟨u, hpu, .inr (.inr (.inr (.inr ⟨n, by simpa using hn, rfl⟩)))⟩ hpp
+      have hparts : ∀ n ∈ ps, ∀ pp, uploadPartPath e u n = .ok pp →
+          ∀ a, P e enc (.completeMultipartUpload b k uid (some ps) c) ⟨a, .path pp⟩ := by
+        intro n hn pp hpp a
+        exact L_name hr (good_uploadPartName hu n)
+          ⟨u, hpu, .inr (.inr (.inr (.inr ⟨n, by simpa using hn, rfl⟩)))⟩ hpp
+      have hchk := completeCheck_allowed e enc hr he u ps hparts 0 _ [] hp1 (by simp)
+      cases hcc : completeCheck e u ps 0 (([] : List Touch) ++ [rd info]) [] with
+      | error pl => exact hchk.1 pl hcc
+      | ok r =>
+        obtain ⟨t2, pps⟩ := r
+        obtain ⟨ht2, hpps⟩ := hchk.2 t2 pps hcc
+        simp only
+        refine forall_withPath ht2 fun tmp htmp => ?_
+        have h4 : ∀ acc, P e enc (.completeMultipartUpload b k uid (some ps) c) ⟨acc, .path tmp⟩ :=
+          fun _ => L_name hr (good_tmpName c) ⟨u, hpu, .inr (.inr (.inr (.inl rfl)))⟩ htmp
+        have hp3 : ∀ t ∈ t2 ++ [cr tmp, wr tmp] ++ pps.map rd ++
+            [rm tmp, ⟨.create, .dirChain (parentPath p)⟩, cr p, wr p],
+            P e enc (.completeMultipartUpload b k uid (some ps) c) t :=
+          forall_append (forall_append (forall_append ht2 (by touch_list <;> solve_by_elim))
+            (forall_map_path e enc hr he rd .read (fun _ => rfl) hpps)) (by touch_list <;> solve_by_elim)
+        refine forall_withPath hp3 fun um hum => ?_
+        have h2 : ∀ acc, P e enc (.completeMultipartUpload b k uid (some ps) c) ⟨acc, .path um⟩ :=
+          fun _ => L_name hr (good_metadataName he b k (by intro x hx; cases hx; exact hu))
+            ⟨u, hpu, .inr (.inl rfl)⟩ hum
+        have hp4 := forall_append hp3 (show ∀ t ∈ [rd um], P e enc (.completeMultipartUpload b k uid (some ps) c) t by
+          touch_list <;> solve_by_elim)
+        refine forall_withPath hp4 fun m hm => ?_
+        have h3 : ∀ acc, P e enc (.completeMultipartUpload b k uid (some ps) c) ⟨acc, .path m⟩ :=
+          fun _ => L_name hr (good_metadataName he b k (by simp)) ⟨u, hpu, .inr (.inr (.inl rfl))⟩ hm
+        have hp5 := forall_append (forall_append hp4
+          (show ∀ t ∈ [cr m, wr m, rm um], P e enc (.completeMultipartUpload b k uid (some ps) c) t by
+            touch_list <;> solve_by_elim)) (forall_map_path e enc hr he rm .delete (fun _ => rfl) hpps)
+        refine forall_withPath hp5 fun info' hinfo' => ?_
+        have h1' : ∀ acc, P e enc (.completeMultipartUpload b k uid (some ps) c) ⟨acc, .path info'⟩ :=
+          fun _ => L_name hr (good_uploadInfoName hu) ⟨u, hpu, .inl rfl⟩ hinfo'
+        exact forall_append hp5 (by touch_list <;> solve_by_elim)
 
 theorem plan_abortMultipartUpload (b k uid : Bytes) :
     ∀ t ∈ (plan e enc (.abortMultipartUpload b k uid)).touches, P e enc (.abortMultipartUpload b k uid) t := by
